@@ -61,6 +61,9 @@ LAWS = {
     "refused-no-effect-links": "a {set desc} or {acc user=new} that is answered with an error (denied, or the store failed while the topic / account / subscription was being updated or created) leaves upload records, link rows and stored bytes as they were: the avatar that was linked stays linked",
     "url-names-upload": "a URL yields an id only if its cleaned path is [serve prefix or nothing] + an 11-character name from [-_A-Za-z0-9] followed by nothing or a character outside that class",
     "no-panic": "the code under test panicked",
+    "stored-type-is-detected": "the type an upload is stored and served under is the one sniffed from its first 512 bytes, whatever the multipart part declares; only when sniffing yields exactly application/octet-stream is a well-formed declared type of a listed family (application, audio, font, image, text, video) taken instead",
+    "application-forced-download": "content that sniffs as HTML, XML, text or an application type (other than the undetectable application/octet-stream with a usable declared type) is served with Content-Disposition: attachment whatever type was declared",
+    "gc-respects-grace-period": "the garbage-collection loop, whatever its period, passes a cut-off at least one hour in the past to DeleteUnused and removes no upload that was updated less than one hour ago",
 }
 
 
@@ -847,6 +850,124 @@ def avatar_fault_cases_c16c(g, count, length):
         g.add("DUMP")
 
 
+# ---------------------------------------------------------------- part f: declared content types, the real GC loop
+KINDS_C16F = ["png", "jpeg", "gif", "pdf", "zip", "gzip", "wasm", "ps", "rar", "ogg", "woff", "woff2", "ttf", "mp3", "wav", "webp",
+              "webm", "bmp", "mp4", "html", "wshtml", "xml", "wsxml", "svg", "text", "js", "json", "utf16", "bin"]
+DECLARED_C16F = ["image/png", "image/jpeg", "image/gif", "image/svg+xml", "video/mp4", "video/webm", "audio/mpeg", "font/woff2", "font/ttf",
+                 "text/plain", "text/html", "text/xml; charset=utf-8", "text/css", "application/pdf", "application/zip", "application/x-gzip",
+                 "application/wasm", "application/octet-stream", "application/json", "application/xhtml+xml", "application/x-msdownload",
+                 "IMAGE/PNG", "Image/Png; Charset=UTF-8", "image/png; charset=utf-8", "video/mp4; codecs=\"avc1.42E01E, mp4a.40.2\"",
+                 "chemical/x-pdb", "message/rfc822", "model/vrml", "multipart/mixed; boundary=x", "x/y", "image", "image/", "/png", "image/png;",
+                 "image/png; charset", "image/png; =x", "image/png;;", "image/p ng", "image/png; a=1; a=2", "image/png/x", "imagepng", ";", "a b/c",
+                 "text/plain; charset=\"utf-8", "image/png; name*=utf-8''x", "font/", "audio/x", "texthtml/x", "applicationx/pdf", ""]
+SNIFF_OF_C16F = {"png": "image/png", "jpeg": "image/jpeg", "gif": "image/gif", "pdf": "application/pdf", "zip": "application/zip",
+                 "gzip": "application/x-gzip", "wasm": "application/wasm", "ps": "application/postscript", "rar": "application/x-rar-compressed",
+                 "ogg": "application/ogg", "woff": "font/woff", "woff2": "font/woff2", "mp3": "audio/mpeg", "wav": "audio/wave", "webp": "image/webp",
+                 "webm": "video/webm", "bmp": "image/bmp", "mp4": "video/mp4", "html": "text/html; charset=utf-8",
+                 "xml": "text/xml; charset=utf-8", "text": "text/plain; charset=utf-8"}
+
+
+def declared_type_cases_c16f(g):
+    """bodies of every sniff class x declared Content-Type of the part from {absent, the sniffed type, every other family,
+    upper case, parameters, malformed}, each uploaded and downloaded again (UPT)"""
+    rng = g.rng
+    quick = g.ctx.tier == "quick"
+    g.starts_upt_c16f = len(g.lines)
+    tag = 0
+    for kind in KINDS_C16F:
+        decl = ["-"] + ([SNIFF_OF_C16F[kind]] if kind in SNIFF_OF_C16F else []) + DECLARED_C16F
+        if quick and kind not in ("pdf", "zip", "bin", "html"):
+            keep = ["-", "image/png", "video/mp4", "text/plain", "application/octet-stream", "font/woff2", "audio/mpeg"]
+            decl = keep + rng.sample([d for d in decl if d not in keep], 6)
+        for dct in decl:
+            tag += 1
+            n = rng.choice([16, 64, 511, 512, 513, 700, 2000]) if rng.random() < 0.5 else rng.choice([600, 900, 1500])
+            g.add("UPT kind=%s n=%d tag=%d ct=%s asatt=%s" % (kind, n, tag, "-" if dct == "-" else (hx(dct) or "-"),
+                                                              rng.choice(["-", "-", "-", "0", "1", "yes", "false"])))
+    g.ends_upt_c16f = len(g.lines)
+
+
+def gc_loop_cases_c16f(g, count):
+    """the real largeFileRunGarbageCollection goroutine (periods of 20 ms .. 2 s) over uploads whose age is spread around
+    the one-hour grace period: seconds, minutes, just under / just over one hour, hours; some of them linked"""
+    rng = g.rng
+    g.starts_c16f = []
+    for h in range(count):
+        g.starts_c16f.append(len(g.lines))
+        g.ntopic += 1
+        t = g.ntopic
+        g.add("TOPIC %d 1 -" % t)
+        # unlinked uploads left by earlier histories have real ages the model does not know to the second: collect them first
+        g.add("GC zero 0")
+        g.add("DUMP")
+        # ages (seconds) in decreasing order: each AGES adds the difference to everything uploaded so far
+        ages = sorted(rng.sample([7500, 3900, 3660, 3540, 3300, 1800, 600, 125, 61, 30, 2, 0], rng.choice([4, 5, 6, 7])), reverse=True)
+        for j, a in enumerate(ages):
+            k = g.good_up(body="form:%d:1:1" % rng.choice([1300, 1800]))
+            if rng.random() < 0.25:
+                g.add("PUB 1 %d %s" % (t, g.tpl(k, "F")))
+            nxt = ages[j + 1] if j + 1 < len(ages) else 0
+            if a - nxt > 0:
+                g.add("AGES %d" % (a - nxt))
+        g.add("DUMP")
+        g.add("GCRUN %d %d" % (rng.choice([20, 20, 35, 50, 120, 400, 1000] if h else [20]), rng.choice([100, 100, 1000, 7])))
+        g.add("DUMP")
+        if rng.random() < 0.6:
+            g.add("AGES %d" % rng.choice([240, 3480, 3720]))     # no sum with the ages above comes within 59 s under one hour
+            g.add("GCRUN %d %d" % (rng.choice([20, 30, 60]), 100))
+            g.add("DUMP")
+        # leave nothing behind for the next history
+        g.add("DELTOPIC 1 %d" % t)
+        g.add("DUMP")
+        g.add("GC zero 0")
+        g.add("DUMP")
+
+
+def model_line_c16f(line, ans):
+    """the line given to the model: for UPT the results of the stdlib functions observed by the driver are appended"""
+    if line.startswith("UPT "):
+        _, side = split(ans)
+        return line + " sniff=%s pok=%s pmt=%s pfmt=%s" % (side.get("sniff") or "-", side.get("pok", "0"), side.get("pmt") or "-", side.get("pfmt") or "-")
+    return line
+
+
+ALLOWED_C16F = ("application/", "audio/", "font/", "image/", "text/", "video/")
+HOUR_NS_C16F = 3600 * 10 ** 9
+
+
+def monitors_c16f(lines, answers):
+    fails = []
+    for i, (line, ans) in enumerate(zip(lines, answers)):
+        w = line.split()
+        cmp_, side = split(ans)
+        a = cmp_.split()
+        if w[0] == "UPT" and a[1:3] == ["200", "200"] and "sniff" in side:
+            d = kvs(cmp_)
+            tx = lambda h: unhx(h or "").decode("latin1")
+            sniff, stored, ct = tx(side.get("sniff")), tx(d.get("stored")), tx(d.get("ct"))
+            pok, pmt, pfmt = side.get("pok") == "1", tx(side.get("pmt")), tx(side.get("pfmt"))
+            declared = tx(kvs(line).get("ct")) if kvs(line).get("ct") != "-" else None
+            usable = pok and pfmt != "" and pmt.startswith(ALLOWED_C16F)
+            if sniff != "application/octet-stream":
+                if stored != sniff:
+                    fails.append(("stored-type-is-detected", i, "body sniffed as %r, declared %r, stored as %r" % (sniff, declared, stored)))
+            elif stored != sniff and not (usable and stored == pfmt):
+                fails.append(("stored-type-is-detected", i, "undetectable body, declared %r (parsed %r), stored as %r" % (declared, pfmt if pok else None, stored)))
+            if ct != stored or d.get("bytes") != "1":
+                fails.append(("download-exact", i, "stored as %r, served as %r, bytes equal: %s" % (stored, ct, d.get("bytes"))))
+            if is_active(sniff) and (sniff != "application/octet-stream" or not usable) and d.get("cd") != "1":
+                fails.append(("application-forced-download", i, "body sniffed as %r, declared %r, served as %r without Content-Disposition: attachment" % (sniff, declared, ct)))
+            if is_active(ct) and d.get("cd") != "1":
+                fails.append(("active-attached", i, "type %r served inline" % ct))
+        elif w[0] == "GCRUN" and a[1:2] == ["ok"]:
+            if int(side.get("mincut_ns", "0")) < HOUR_NS_C16F:
+                fails.append(("gc-respects-grace-period", i, "the loop with period %s ms called DeleteUnused with a cut-off only %.3f s in the past" % (w[1], int(side.get("mincut_ns", "0")) / 1e9)))
+            for x in (side.get("gonerec") or "").split(","):
+                if x and int(x.split(":")[1]) < 3600 * 1000:
+                    fails.append(("gc-respects-grace-period", i, "upload %s, updated %.1f s ago, was removed by the loop with period %s ms" % (x.split(":")[0], int(x.split(":")[1]) / 1e3, w[1])))
+    return fails
+
+
 def delmsg_indices(g):
     """DELMSG lines were generated with random publish numbers; nothing to fix up: the driver
     and the runner both ignore numbers that are not publishes of that topic."""
@@ -969,6 +1090,9 @@ def monitors(lines, answers):
             aged |= made
         elif w[0] == "GC":
             pending_gc = (i, w[1], int(w[2]), side.get("gonerec", ""), int(side.get("gonefiles", "0")))
+        elif w[0] == "GCRUN":
+            # the loop's tick = DeleteUnused(now - 1h, block); gonerec carries k:age
+            pending_gc = (i, "run", int(w[2]), ",".join(x.split(":")[0] for x in (side.get("gonerec") or "").split(",") if x), int(side.get("gonefiles", "0")))
         elif w[0] == "DUMP":
             d = kvs(cmp_)
             files = dict(x.split(":") for x in d["files"].split(",")) if d["files"] != "-" else {}
@@ -996,7 +1120,7 @@ def monitors(lines, answers):
                         fails.append(("gc-exact", gi, "%d records with bytes removed but %d files deleted" % (len(removed & pd), gonefiles)))
                     want = (unlinked & aged) if kind == "past" else unlinked
                     n = len(want) if lim <= 0 else min(lim, len(want))
-                    if len(removed) != n:
+                    if kind != "run" and len(removed) != n:
                         fails.append(("gc-exact", gi, "GC(%s, limit %d) removed %d of %d collectable uploads" % (kind, lim, len(removed), len(want))))
                 elif gone:
                     fails.append(("nothing-else-removed", i, "uploads %s disappeared after %s" % (sorted(gone), lines[i - 1][:60])))
@@ -1482,6 +1606,8 @@ def run(ctx):
         download_full_cases_c16c(g)
         g.gap_c16c = (gap0_c16c, len(g.lines))
         avatar_fault_cases_c16c(g, 6 if quick else 50, 24 if quick else 32)
+        declared_type_cases_c16f(g)
+        gc_loop_cases_c16f(g, 6 if quick else 60)
         # USER 1 must come before the FA lines (they authenticate as user 1)
         lines = ["USER 1"] + pure + g.lines[1:]
     rc, impl, err = run_impl(ctx, lines)
@@ -1489,14 +1615,14 @@ def run(ctx):
         ctx.violation("corr", "driver-crashed", "implementation driver failed rc=%s (%d of %d answers): %s" % (rc, len(impl), len(lines), err[-1500:]),
                       {"correspondence": "driver run", "stderr": err[-3000:]})
         ctx.finish()
-    rc, model, err = ctx.run_model("c16", lines)
+    rc, model, err = ctx.run_model("c16", [model_line_c16f(l, a) for l, a in zip(lines, impl)])
     if rc != 0 or len(model) != len(lines):
         ctx.violation("proof", "runner-crashed", "model runner failed: " + err[-1500:], {"theorem_or_obligation": "model runner"})
         ctx.finish()
 
     import bisect
     import re as _re
-    stateful_idx = [j for j, l in enumerate(lines) if l.split(None, 1)[0] not in ("CL", "ID", "FA")]
+    stateful_idx = [j for j, l in enumerate(lines) if l.split(None, 1)[0] not in ("CL", "ID", "FA", "UPT")]
     maker = {}
     for j in stateful_idx:
         l = lines[j]
@@ -1522,6 +1648,13 @@ def run(ctx):
     def prefix(i):
         """replay of a stateful line = all stateful lines up to it"""
         k0 = lines[i].split(None, 1)[0]
+        s1 = max([len(pure) + j for j in getattr(g, "starts_c16f", []) if len(pure) + j <= i], default=None) if not ctx.replay else None
+        if s1 is not None and k0 != "UPT":
+            # a GC-loop history: its own lines up to the dump that follows the failing line
+            e = i
+            while e + 1 < len(lines) and lines[e] != "DUMP":
+                e += 1
+            return with_names({"case": lines[i], "lines": ["USER 1", "USER 2"] + lines[s1:e + 1]})
         s0 = max([j for j in starts_c16b if j <= i], default=None)
         gap = getattr(g, "gap_c16c", None)
         if s0 is not None and gap is not None and len(pure) + gap[0] <= i < len(pure) + gap[1]:
@@ -1534,8 +1667,9 @@ def run(ctx):
             return with_names({"case": lines[i], "lines": ["USER 1", "USER 2", "SYSLOAD"] + lines[s0:e + 1]})
         if k0 in ("CL", "ID"):
             return {"case": lines[i]}
-        if k0 == "FA":
+        if k0 in ("FA", "UPT"):
             return {"case": lines[i], "lines": ["USER 1", lines[i]]}
+
         if k0 in ("UP", "SV", "SVX"):
             # a request line depends only on the users and on the uploads its URL template names
             ks = tpl_re.findall(kvs(lines[i]).get("url", ""))
@@ -1546,7 +1680,7 @@ def run(ctx):
         idx = stateful_idx[:n] if n <= 3060 else stateful_idx[:60] + stateful_idx[n - 3000:n]
         return with_names({"case": lines[i], "lines": [lines[j] for j in idx]})
 
-    fails = monitors(lines, impl) + (history_expectations(g, lines, impl) if g is not None else [])
+    fails = monitors(lines, impl) + monitors_c16f(lines, impl) + (history_expectations(g, lines, impl) if g is not None else [])
     known = {f["key"] for f in ctx.load_findings() if f["property"] == ctx.pid}
     unknown_fails = [f for f in fails if f[0] not in known]
     per_law = {}
@@ -1565,7 +1699,7 @@ def run(ctx):
         pool = list(dict.fromkeys(pool))[:20000]
         if pool:
             rc, impl2, _ = run_impl(ctx, pool, "search")
-            f2 = monitors(pool, impl2) if len(impl2) == len(pool) else []
+            f2 = (monitors(pool, impl2) + monitors_c16f(pool, impl2)) if len(impl2) == len(pool) else []
             searched = len(pool)
             for law, i, detail in f2:
                 ctx.violation("monitor", law, "law %s fails on the implementation: %s -> %s (%s)" % (law, pool[i], impl2[i], detail),
@@ -1619,6 +1753,8 @@ def run(ctx):
                 "upload records aged past the grace period followed by the garbage collector's own call DeleteUnused(now - 1h, limit), dumps after every step; "
                 "download requests with every field of the upload request (SVX: every valid-key placement x every way of carrying no valid credentials x the topic parameter - newacc and neighbours - in query / form / cookie for GET and HEAD; the method x key x credential cross product with form fields in a multipart body, sampled in quick; precedence pairs; handler configurations; URL shapes); "
                 "%d seeded avatar histories under store faults: a group topic with a member and the 'me' topics of both users, blocks of [acknowledged {set desc public+attachments}; the adversarial request - k-th adapter call failing (core update, subscription update, link call), a non-owner, private only, nothing to change -; AGE + DeleteUnused(now - 1h) + downloads of the old and the new avatar], {acc user=new} with an avatar and the k-th adapter call failing, memverif's call log of every such request compared with the model's, dumps after every step; "
+                "UPT: bodies of 29 sniff classes x declared Content-Type of the multipart part (absent, the sniffed type, every family, upper case, parameters, malformed) x asatt, uploaded and downloaded through the real handlers, stored type / Content-Type / Content-Disposition / bytes compared with Sys/FilesTypeC16f.v; "
+                "GCRUN: the real largeFileRunGarbageCollection goroutine (periods 20 ms .. 1 s, block 7 / 100 / 1000) over uploads aged 0 s .. 2 h 5 min around the one-hour grace period (AGES), some linked, memverif recording the bound of every FileDeleteUnused call; "
                 "the statements of the real MySQL adapter for GC / linking / FinishUpload executed on sqlite over enumerated tables of up to 3 uploads (old / new, 7 link sets each) x 6 (bound, limit) pairs; "
                 "non-trivial = an id was extracted / a request had an effect / a history operation ran" % (7 if quick else 11, 12 if quick else 400, 8 if quick else 250, 6 if quick else 120),
         "samples": [{"case": lines[i][:300], "impl": impl[i][:300]} for i in ([i for i in (1, 2, 3) if i < len(lines)] + ctx.rng.sample(range(len(lines)), min(6, len(lines))))],
@@ -1634,6 +1770,7 @@ def run(ctx):
             "harness/runner/r_c16.ml glue: text of a placement kind -> constructor (valid key / good token / bad signature ...), upload k <-> model id; for PUBX lines: the sender's (want, given) taken from the MEMBER / P2P / TOPIC lines (the mode algebra itself is C05/C07's), position k of the failing adapter call -> fault plan of the Save model, model time = sum of the AGE lines",
             "harness/overlay/server/zz_verif_c16b_test.go (sender-mode part of the driver: builds the {sub}/{set}/{pub} requests, reads memverif's call log and subscription rows) and memverif.AgeFilesC16b (moves updatedat of the upload records back)",
             "harness/overlay/server/zz_verif_c16c_test.go (SVX: builds GET / HEAD requests with a multipart body, cookies and query for the real largeFileServe; SETX / NEWACCX: builds the {set} / {acc} requests, arms memverif.SetFault(k), reads memverif's call log, the stored public of the topic / user and the users table via memverif.DumpUsersC16c) and the runner's glue for these lines in r_c16.ml: the request environment of the {set desc} model (pre-check outcome, core / sub non-empty) is derived from the line - a group topic is changed by its owner only, the driver's values always differ from the stored ones -, position k of the failing call -> fault plan by a fault-free run of the model",
+            "harness/overlay/server/zz_verif_c16f_test.go (UPT: builds the multipart body with the declared type, computes http.DetectContentType on the zero-padded first 512 bytes and mime.ParseMediaType / FormatMediaType on the declared text - these three results are INPUTS of the model line -, removes the upload afterwards; GCRUN: starts the real GC goroutine, waits for the first recorded FileDeleteUnused call, stops it through its channel) and memverif.RecordGcC16f / noteGcC16f (one line at the entry of memverif's FileDeleteUnused); runner glue: model time in ns, one model tick per GCRUN line (later ticks of the same run, ms apart, remove nothing more: ages are kept 59 s away from one hour)",
             "tools/props/c16.py law monitors (python restatement of the theorems, evaluated on the implementation's answers)",
             "outside the model: bytes on disk, http.DetectContentType, http.ServeContent, multipart parsing, MaxBytesReader (checked by the correspondence only)",
             "FinishUpload / StartUpload store failures are injected through memverif.SetFault; a media handler that is not configured is obtained by UseMediaHandler of an unknown name (recovered)",
